@@ -368,6 +368,12 @@ MUTATIONS += [
     dict(id="C07-backuptree-uploads-known-changed-tree", prop="C07", file=TA, old="        if !self.index.has_tree(&id) {", new="        if !matches!(parent, ParentResult::NotFound) || !self.index.has_tree(&id) {"),
 ]
 
+MUTATIONS += [
+    dict(id="C16-repair-hot-direction-skipped", prop="C16", file=RH, old="    if !missing_hot.is_empty() {\n        if dry_run {", new="    if !missing_hot.is_empty() && missing_cold_size == 0 {\n        if dry_run {"),
+    dict(id="C16-repair-hot-copy-without-warmup", prop="C16", file=RH, old="            warm_up_wait(repo, file_type, missing_hot.iter().copied())?;\n", new=""),
+    dict(id="C16-repair-dry-run-copies", prop="C16", file=RH, old="    if !missing_cold.is_empty() {\n        if dry_run {", new="    if !missing_cold.is_empty() {\n        if dry_run && file_type == FileType::Pack {"),
+]
+
 HARMLESS = [
     dict(id="H-C05-trees-symlink-continue", prop="C05", file=CK, old="        for node in tree.nodes {\n            match node.node_type {", new="        for node in tree.nodes {\n            if node.node_type == NodeType::Symlink {\n                continue;\n            }\n            match node.node_type {"),
     # independent statements reordered
